@@ -155,7 +155,9 @@ def c10(ctx):
     t = ctx.tier == "thorough"
     ctx.stage("olc-concurrent", "olc_conc", "rel", worker_args(ctx.seed + 555, scaled(24000 if t else 1600), 16, ["--prop", "C10", "--explore", "60"]), timeout=3600)
     ctx.stage("olc-concurrent-free", "olc_conc", "dbg-asan", worker_args(ctx.seed + 556, scaled(8000 if t else 320), 8, ["--prop", "C10", "--mode", "free", "--rounds", "30"]), timeout=3600, jobs=8)
-    ctx.floors = ctx.floors + [("growth_shrink_conservation_checks", 10000), ("operation_restarts", 1000)]
+    # truly parallel threads (no scheduler): counter updates lost between threads that grow / shrink nodes of one class at the same time
+    ctx.stage("parallel-counters", "cfgdiff", "cfg-avx2-stats-ndebug-spin1", worker_args(ctx.seed + 77, scaled(24000 if t else 2400), 8, ["--only-mt", "2", "--mtops", "4000"]), timeout=3600, jobs=8)
+    ctx.floors = ctx.floors + [("growth_shrink_conservation_checks", 10000), ("operation_restarts", 1000), ("parallel_conservation_checks", 1000), ("parallel_structural_events", 1000000)]
     ctx.rule = ("after every operation of C01-style histories (incl. failed/duplicate operations and clear): node counts per class, leaf count, memory use, "
                 "growth/shrink counters and prefix-split counter compared with what the path-compressed radix tree of the current key set (reference trie, "
                 "smallest fitting class per node) implies; bytes held from the allocator (allocate/free hooks) compared with reported memory use; nothing "
@@ -163,7 +165,9 @@ def c10(ctx):
                 "deferred reclamation and must equal it exactly after every drain (three rounds of quiescent states of both threads). A comparison is distinct+non-trivial when the key-set hash is new and the tree has >= 1 inner node. "
                 "Concurrent part (olc_db): after every execution of the C03 programs under the serialized scheduler and in free-running rounds - all threads gone, QSBR "
                 "drained - node counts must equal the reference trie of the final key set, allocator bytes the reported memory, and the conservation identities "
-                "nodes[X] = grow[X] - shrink[X] - grow[larger] + shrink[larger] must hold (a counter that moves on an abandoned attempt breaks them)")
+                "nodes[X] = grow[X] - shrink[X] - grow[larger] + shrink[larger] must hold (a counter that moves on an abandoned attempt breaks them); the same identities after "
+                "truly parallel phases (4 unscheduled threads each building nodes of 2/5/17 children under their own branch and taking them down again, ~4000 structural events per case): "
+                "an update lost between two threads breaks them")
 
 
 # ------------------------------------------------------------- E2 lock_conc
@@ -264,8 +268,9 @@ def c14(ctx):
     t = ctx.tier == "thorough"
     _olc_stages(ctx, "C14", scaled(16000 if t else 800), scaled(32000 if t else 1600), 60)
     ctx.stage("oom-olc", "oom", "dbg-oom", worker_args(ctx.seed, scaled(40000 if t else 1600), 16, ["--prop", "C14"]), timeout=3600, build_kwargs=OOM_BUILD)
-    ctx.floors = ctx.floors + [("olc_lock_sweeps", 1000)]
-    ctx.rule = OLC_RULE + ("Liveness is decided logically by the scheduler: DEADLOCK when every unfinished thread has reached a spin point 50 times in a row while "
+    ctx.floors = ctx.floors + [("olc_lock_sweeps", 1000), ("executions_with_a_waiter_starved_for_2e20_polls", 50)]
+    ctx.rule = OLC_RULE + ("In ~3% of the executions the first thread that reaches a spin point keeps polling for 1.1-1.4 million iterations before the lock holder is scheduled again "
+                           "(starvation probe: behaviour that only changes after very long waits). Liveness is decided logically by the scheduler: DEADLOCK when every unfinished thread has reached a spin point 50 times in a row while "
                            "no thread performed a write-kind step; LIVELOCK when an execution exceeds 400000 steps; after every execution a single-threaded sweep (get "
                            "of every key, full forward and reverse scan, insert+remove probes next to every operation key at three byte positions) runs with the "
                            "scheduler still active, so a lock left behind is reported as a deadlock of the sweep. Distinct+non-trivial: (program, switch signature) "
@@ -511,7 +516,7 @@ def c13(ctx):
         ctx.stage("free-asan", "mutex_lin", "dbg-asan", [["--seed", str(ctx.seed * 100 + 90 + i), "--first", "0", "--cases", str(scaled(150000))] for i in range(4)],
                   timeout=7200, build_kwargs=libs)
     ctx.rule = ("rounds: a fresh mutex_db<uint64>, 2-8 keys sharing prefixes (20% of rounds with static ballast keys so the branching node crosses 4/16/48 children), "
-                "pre-populated, then 2-8 free-running std::threads x 2-6 operations {insert(unique value, 1 in 7 of length 0), remove, get, empty, scan / reverse scan / scan_from / scan_range over the whole key space, clear, the statistics accessors} released by a spin barrier, with "
+                "pre-populated, then 2-8 free-running std::threads x 2-6 operations {insert(unique value, 1 in 7 of length 0), remove, get, empty, scan / reverse scan / scan_from / scan_range over the whole key space, clear, the statistics accessors, dump} released by a spin barrier, with "
                 "per-thread timing perturbation; stamps from one atomic counter around every call. Oracles: per-key linearizability (Wing-Gong) incl. a final "
                 "snapshot; owns_lock() == hit on every get; value bytes re-read under the held handle; hold-window rule (no other thread's operation called and "
                 "returned inside a hold); interposed pthread_mutex monitor (held count 0 after every call, 1 exactly after a hit) in the non-TSan build; ThreadSanitizer "
@@ -519,7 +524,7 @@ def c13(ctx):
                 "on one key or an operation overlapped another thread's hold window")
     ctx.assumptions = ["OS schedules with perturbation only (no hooks inside std::mutex), which is what the property quantifies over",
                        "x86: lock xadd stamps respect real time", "wall-clock is used only by the hang watchdog, a backstop for the interposition monitor"]
-    ctx.floors = [("rounds", 10000), ("overlapping_pairs", 10000), ("blocked_behind_hold", 1000), ("lock_monitor_checks", 10000), ("gets_hit", 1000), ("gets_miss", 1000), ("clears", 1000), ("statistics_calls", 1000)]
+    ctx.floors = [("rounds", 10000), ("overlapping_pairs", 10000), ("blocked_behind_hold", 1000), ("lock_monitor_checks", 10000), ("gets_hit", 1000), ("gets_miss", 1000), ("clears", 1000), ("statistics_calls", 1000), ("dumps", 500)]
 
 
 # ------------------------------------------------------------------ setup
